@@ -82,6 +82,19 @@ func ruleCancelObserved() check.Rule {
 							}
 						}
 						callee := model.Callee(info, c2)
+						// the library's report hooks (ro.OnUnhandledError(ctx, err), OnDroppedNotification) are handed the
+						// context the way a notification is: it decorates the report, nobody waits on it
+						if id, _ := rootIdent(c2.Fun); id != nil {
+							hook := id
+							if sel, ok := ast.Unparen(c2.Fun).(*ast.SelectorExpr); ok {
+								hook = sel.Sel
+							}
+							if v, ok := info.Uses[hook].(*types.Var); ok && v.Pkg() != nil && v.Pkg().Path() == ro && v.Parent() == v.Pkg().Scope() {
+								if _, isSig := v.Type().Underlying().(*types.Signature); isSig {
+									return true
+								}
+							}
+						}
 						if callee != nil {
 							if name, isObs := m.Obj.ObserverMethods[callee]; isObs && notifKind(name) >= 0 {
 								return true
